@@ -1,7 +1,6 @@
 package props
 
 import (
-	"bytes"
 	"encoding/json"
 	"fmt"
 	"reflect"
@@ -10,6 +9,7 @@ import (
 	"github.com/Breeze0806/gobinlog"
 	"pgregory.net/rapid"
 
+	"verif/fakemaster"
 	"verif/gen"
 	"verif/hist"
 	"verif/refenc"
@@ -20,6 +20,18 @@ import (
 type StabilityCase struct {
 	E        E2ECase
 	Scribble bool
+	// FailAt > 0: the handler refuses its FailAt-th transaction with a temporary error, after it has looked at
+	// it (and scribbled over it); whatever the library does next, nobody may be handed the scribbled copy
+	FailAt int `json:",omitempty"`
+}
+
+// scribbleCol overwrites one delivered column in place: its bytes, its name and its absent flag.
+func scribbleCol(cd *gobinlog.ColumnData) {
+	for i := range cd.Data {
+		cd.Data[i] = 0xEE
+	}
+	cd.Filed = "scribbled:" + cd.Filed
+	cd.IsEmpty = !cd.IsEmpty
 }
 
 func cloneTx(t *gobinlog.Transaction) *gobinlog.Transaction {
@@ -29,6 +41,9 @@ func cloneTx(t *gobinlog.Transaction) *gobinlog.Transaction {
 		c.Events = make([]*gobinlog.StreamEvent, len(t.Events))
 	}
 	for i, e := range t.Events {
+		if e == nil {
+			continue
+		}
 		ec := *e
 		if e.Query.Charset != nil {
 			cs := *e.Query.Charset
@@ -40,8 +55,17 @@ func cloneTx(t *gobinlog.Transaction) *gobinlog.Transaction {
 			}
 			out := make([]*gobinlog.RowData, len(rows))
 			for j, r := range rows {
-				rc := &gobinlog.RowData{Columns: make([]*gobinlog.ColumnData, len(r.Columns))}
+				if r == nil {
+					continue
+				}
+				rc := &gobinlog.RowData{}
+				if r.Columns != nil {
+					rc.Columns = make([]*gobinlog.ColumnData, len(r.Columns))
+				}
 				for k, col := range r.Columns {
+					if col == nil {
+						continue
+					}
 					cc := *col
 					if col.Data != nil {
 						cc.Data = append([]byte{}, col.Data...)
@@ -88,6 +112,7 @@ func checkC08(c *StabilityCase) error {
 	defer ss.close()
 	var retained, snaps []*gobinlog.Transaction
 	var herr error
+	calls := 0
 	handler := func(tx *gobinlog.Transaction, st *attemptState) error {
 		k := len(retained)
 		// (1) what arrives now still equals the model, whatever was done to earlier deliveries
@@ -103,28 +128,27 @@ func checkC08(c *StabilityCase) error {
 			sc := cloneTx(tx)
 			_ = sc
 			eachData(tx, func(ev, img, row, col int, cd *gobinlog.ColumnData) {
-				if cd.Data == nil {
-					return
-				}
-				var want []byte
+				var want *gobinlog.ColumnData
 				if img == 0 {
-					want = snap.Events[ev].RowIdentifies[row].Columns[col].Data
+					want = snap.Events[ev].RowIdentifies[row].Columns[col]
 				} else {
-					want = snap.Events[ev].RowValues[row].Columns[col].Data
+					want = snap.Events[ev].RowValues[row].Columns[col]
 				}
-				if herr == nil && !bytes.Equal(cd.Data, want) {
-					herr = fmt.Errorf("tx %d event %d row %d col %d: value changed from %q to %q when other values of the delivery were overwritten", k, ev, row, col, clipB(want), clipB(cd.Data))
+				if herr == nil && !reflect.DeepEqual(cd, want) {
+					herr = fmt.Errorf("tx %d event %d row %d col %d: column changed from %+v to %+v when other columns of the delivery were overwritten", k, ev, row, col, *want, *cd)
 				}
-				for i := range cd.Data {
-					cd.Data[i] = 0xEE
-				}
+				scribbleCol(cd)
 			})
+		}
+		calls++
+		if c.FailAt > 0 && calls == c.FailAt {
+			return tempErr{}
 		}
 		retained = append(retained, tx)
 		snaps = append(snaps, snap)
 		return nil
 	}
-	st := ss.run(attempt{l: l, pacing: c.E.Pacing, handler: handler})
+	st := ss.run(attempt{l: l, pacing: c.E.Pacing, handler: handler, plan: &fakemaster.ConnPlan{Chop: c.E.Chop}, noSnapshot: true, noMangle: true})
 	st.drainLib()
 	if err := st.panicErr(); err != nil {
 		return err
@@ -135,7 +159,11 @@ func checkC08(c *StabilityCase) error {
 	if herr != nil {
 		return herr
 	}
-	if len(retained) != len(exp) {
+	if c.FailAt > 0 && c.FailAt <= len(exp) {
+		if len(retained) != c.FailAt-1 {
+			return fmt.Errorf("%d transactions accepted, the handler refused number %d [stream err %v]", len(retained), c.FailAt, st.streamErr)
+		}
+	} else if len(retained) != len(exp) {
 		return fmt.Errorf("%d transactions delivered, want %d [stream err %v]", len(retained), len(exp), st.streamErr)
 	}
 	verify := func(when string) error {
@@ -143,11 +171,7 @@ func checkC08(c *StabilityCase) error {
 			want := snaps[k]
 			if c.Scribble {
 				want = cloneTx(snaps[k])
-				eachData(want, func(_, _, _, _ int, cd *gobinlog.ColumnData) {
-					for i := range cd.Data {
-						cd.Data[i] = 0xEE
-					}
-				})
+				eachData(want, func(_, _, _, _ int, cd *gobinlog.ColumnData) { scribbleCol(cd) })
 			}
 			if !reflect.DeepEqual(tx, want) {
 				a, _ := json.Marshal(want)
@@ -158,6 +182,13 @@ func checkC08(c *StabilityCase) error {
 		return nil
 	}
 	if err := verify("after the stream ended"); err != nil {
+		return err
+	}
+	// serialising what was kept is a read: it changes nothing
+	for _, tx := range retained {
+		guard(func() error { _, e := json.Marshal(tx); return e })
+	}
+	if err := verify("after the retained transactions were serialised to JSON"); err != nil {
 		return err
 	}
 	// (3a) a second attempt on the SAME streamer, from the start again: whatever the library recycles
@@ -197,6 +228,48 @@ func init() {
 	})
 }
 
+// sizedHistory is a run of single-row inserts (id INT, b LONGBLOB, tail VARCHAR) whose rows events arrive
+// in packets of exactly the wanted payload lengths, in that order.
+func sizedHistory(cfg hist.Cfg, payloads []int) (*hist.History, error) {
+	tb := hist.Table{DB: "d", Name: "sized", ID: 41, Cols: []hist.Column{{Name: "id", Type: refenc.TLong}, {Name: "b", Type: refenc.TBlob, Len: 4, Nullable: true},
+		{Name: "tail", Type: refenc.TVarchar, Len: 40, Nullable: true}}}
+	build := func(ns []int) *hist.History {
+		h := &hist.History{Cfg: cfg, Tables: []hist.Table{tb}, FirstFile: "bin.000001"}
+		for i, n := range ns {
+			ev := hist.RowsEv{Table: 0, Kind: 0, Present1: []bool{true, true, true}, TS: uint32(50 + i),
+				Rows: []hist.Row{{After: []hist.Value{{U: uint64(i)}, {B: refenc.Blob{K: 4, S: uint32(n + i), N: n}}, {B: refenc.Lit([]byte(fmt.Sprintf("tail %d", i)))}}}}}
+			h.Units = append(h.Units, hist.Unit{Kind: hist.UTxXID, Begin: &hist.Query{DB: "d", SQL: "BEGIN", TS: uint32(50 + i)},
+				Items: []hist.Item{{Kind: hist.IRows, Maps: []int{0}, Rows: []hist.RowsEv{ev}, TS: uint32(50 + i)}}, XID: uint64(i + 1), TS: uint32(50 + i)})
+		}
+		h.Base = h.MinBase()
+		return h
+	}
+	ns := make([]int, len(payloads))
+	for i := range ns {
+		ns[i] = 10
+	}
+	l, err := build(ns).Lay()
+	if err != nil {
+		return nil, err
+	}
+	k := 0
+	for _, e := range l.Events {
+		if e.Type == hist.RowsEventType(0, cfg.RowsV2) && k < len(ns) {
+			ns[k] = 10 + payloads[k] - 1 - len(e.Bytes) // the payload has one leading status byte
+			if ns[k] < 0 {
+				ns[k] = 0
+			}
+			k++
+		}
+	}
+	return build(ns), nil
+}
+
+// packetSizes are payload lengths around the sizes at which a transport changes how it buffers: the
+// driver's 4 KiB read buffer and its multiples, and the largest buffer it keeps (256 KiB) with the
+// 4 KiB rounding steps below and above it.
+var packetSizes = []int{4095, 4096, 4097, 8191, 8192, 8193, 12288, 65535, 65536, 258047, 258048, 258049, 262143, 262144, 262145, 266239, 266240, 266241}
+
 func TestC08(t *testing.T) {
 	rec := recorder("C08")
 	defer rec.Flush(t)
@@ -219,8 +292,30 @@ func TestC08(t *testing.T) {
 		if rapid.IntRange(0, 2).Draw(rt, "constants_shape") == 0 {
 			ho = oc
 		}
-		c := &StabilityCase{E: E2ECase{H: gen.History(rt, ho)}, Scribble: rapid.Bool().Draw(rt, "scribble")}
+		c := &StabilityCase{Scribble: rapid.Bool().Draw(rt, "scribble")}
+		if rapid.IntRange(0, 7).Draw(rt, "sized_packets") == 0 {
+			// a run of 3-8 packets whose lengths sit on and next to the transport's buffer sizes, in any order
+			var sizes []int
+			for i, n := 0, rapid.IntRange(3, 8).Draw(rt, "sized_n"); i < n; i++ {
+				sizes = append(sizes, rapid.SampledFrom(packetSizes).Draw(rt, "packet_size"))
+			}
+			cfg := gen.Config(rt)
+			cfg.NHeaderSizes = rapid.IntRange(38, 60).Draw(rt, "nsizes")
+			h, err := sizedHistory(cfg, sizes)
+			if err != nil {
+				rt.Skip(err.Error())
+			}
+			c.E.H = h
+		} else {
+			c.E.H = gen.History(rt, ho)
+		}
 		c.E.Pacing = rapid.IntRange(0, 1).Draw(rt, "pacing")
+		if rapid.IntRange(0, 5).Draw(rt, "handler_refuses") == 0 {
+			c.FailAt = rapid.IntRange(1, 4).Draw(rt, "fail_at")
+		}
+		if rapid.IntRange(0, 2).Draw(rt, "chop") == 0 {
+			c.E.Chop = rapid.Uint32Range(1, 1<<32-1).Draw(rt, "chop_seed")
+		}
 		// push some string / blob values to 3000..9000 bytes so that packets straddle the driver's 4 KiB buffer
 		big, zeroTS := 0, 0
 		for ui := range c.E.H.Units {
